@@ -14,6 +14,26 @@ requests, and all non-empty ordered subsets of the names of a file under three c
 only in letter case (each must resolve to itself: every name of a file is asked for on its own, uncached and cached, then all of them
 in reverse order), and files are re-written at the same path between sessions of the same process (same names with other values, or
 other names / length), each version being opened in a new database: what is returned is what the file holds now.
+
+Classes of inputs added by the audit after the third round of seeded changes (every one evaluated by the same clauses):
+* other spellings of the FILE: extensions .hdf5 / .pickle; SIMA key files with several responses per row (beam elements, two
+  `following applies` blocks, numeric line ids, the elmtra naming) and the wind-turbine key files (witurb / blresp, both layouts);
+  .h5 nested groups and scalar attributes; multi-level column labels in .pkl; integer / float32 data in .h5 .pkl .mat .tdms and whole
+  numbers / exponent notation / tab / semicolon / 0 or 2 comment lines / other names of the time column in the text formats; the time
+  array of a .mat file called time / Time_s, extra non-series fields; the .tdms time channel called time or Time, first or last
+  in its group; a .ts file written byte by byte here (the reference must not share the library's writer);
+* boundary values: one sample (where format and library support it), a column of zeros, negative values, magnitudes 2^+-200
+  (2^+-100 in the float32 formats), irregular time steps, time stored as integers; the relative tolerance scales with the column;
+* other spellings of the CALL: TsDB.fromfile, qats.app.funcs.import_from_file / read_timeseries, db.copy, other.update(db),
+  iteration over the database, to_dataframe; file names as list / tuple / relative to the working directory / with a wildcard /
+  several in one call; names as tuple or bare string, indices as tuple / ndarray / bare integer / counted from the end;
+  positional arguments and omitted defaults; `<file name>/<series name>` as a request;
+* histories: a second database of the same process working on the same files in between; the caller overwriting the arrays of
+  series it got with store=False; refused loads (missing file, file already registered, alone or inside a list) followed by
+  valid calls; several files in one database that share a base name (other directory) or a format (other layout, other name
+  of the .mat time array);
+* crashes: a load of a readable file or a request for registered series that raises is a failing clause; an exception anywhere in
+  the evaluation of a history is reported with the history as failing input.
 """
 import itertools
 import os
@@ -47,36 +67,17 @@ RULE = ("files: per format 4 (quick) / 6 (thorough) synthesised files with 1-5 s
         "every second name, each name again cached); per format 2 (quick) / 10 (thorough) chains of 3 sessions in which the 1-2 files "
         "of the database are re-written at the same path (same names and length with other values / other names and length / "
         "unchanged) and opened in a new database of the same process; non-trivial = request that is a proper subset, out of file order, repeats a key or mixes cached and "
-        "uncached keys, or any request of a later session; distinct by (file contents, history)")
-
-SIMA_KEY = """
-   R I F L E X  -  KEY FILE
-   ------------------------
-
-
-   This key-file describes the contents of : %(fn)s
-   The format of %(fn)s is %(kind)s
-   The file %(fn)s contains a time series of element-forces
-   The element-forces are stored in columns on %(fn)s
-
-   Column no. 1 contains FORTRAN specific data (please ignore)
-
-   Column no. 2 contains the time.
-
-
-   For each bar element the following applies :
-
-   DOF 1 = Axial force
-
-
-   The response is stored as follows
-
-   Line   Local     Local      No. of         Stored in
-    Id    segment   element    responses      column(s)
-   ------------------------------------------------------
-%(rows)s
-   Column no.          %(last)d contains FORTRAN specific data (please ignore)
-"""
+        "uncached keys, or any request of a later session; distinct by (file contents, history); "
+        "audit additions: 25 (quick) / 65 (thorough) files in another spelling of the format (FEATURE_FILES / FEATS: extensions hdf5 / "
+        "pickle, multi-response and wind-turbine SIMA key files, nested h5 groups, multi-level pkl labels, integer / float32 / whole-number "
+        "/ exponent data, delimiters, comment lines, names of the time array, one sample, zeros, negatives, 2^+-200, irregular time) each "
+        "with 7 corner subsets, the sweep and a history through every entry point (fromfile / import_from_file / read_timeseries / copy / "
+        "update / iteration / to_dataframe / indices from the end); one file per format with the base name of another file in another "
+        "directory; 3 multi-file histories per format (loaded in one call or one by one, keys of the files requested alternately); three "
+        "quarters of the random histories and a third of the subset histories with calls in another spelling (positional, defaults "
+        "omitted, tuple / bare string / bare integer / ndarray / negative index, file names as list / tuple / relative / wildcard, "
+        "<file>/<name> requests, refused loads of missing files), one in eight with a second database on the same files in between, "
+        "uncached results overwritten by the caller")
 
 TDA_KEY_HEAD = """** Info about series written by SIMO-S2XMOD
 ** 26-NOV-2016 20:59
@@ -95,6 +96,48 @@ Time_arr
 # ----------------------------------------------------------------------------------------------------------
 # file synthesis
 # ----------------------------------------------------------------------------------------------------------
+BEAM_DOFS = [("Axial force", "Te"), ("Torsional moment", "Mx"), ("Mom. about local y-axis, end 1", "My1"),
+             ("Mom. about local y-axis, end 2", "My2"), ("Mom. about local z-axis, end 1", "Mz1"),
+             ("Mom. about local z-axis, end 2", "Mz2"), ("Shear force in local y-direction, end 1", "Sy1"),
+             ("Shear force in local y-direction, end 2", "Sy2"), ("Shear force in local z-direction, end 1", "Sz1"),
+             ("Shear force in local z-direction, end 2", "Sz2")]
+
+SIMA_KEY_HEAD = """
+   R I F L E X  -  KEY FILE
+   ------------------------
+
+
+   This key-file describes the contents of : %(fn)s
+   The format of %(fn)s is %(kind)s
+   The file %(fn)s contains a time series of element-forces
+   The element-forces are stored in columns on %(fn)s
+
+   Column no. 1 contains FORTRAN specific data (please ignore)
+
+   Column no. 2 contains the time.
+
+%(blocks)s
+
+   The response is stored as follows
+
+   Line   Local     Local      No. of         Stored in
+    Id    segment   element    responses      column(s)
+   ------------------------------------------------------
+%(rows)s
+   Column no.          %(last)d contains FORTRAN specific data (please ignore)
+"""
+
+WITURB_HEAD = """'
+'   R I F L E X  -  KEY FILE
+'   ------------------------
+'
+'   This key-file describes the contents of : %(fn)s
+'   The format of %(fn)s is BINARY
+'   with numbers stored as real single precision (4 bytes)
+'
+"""
+
+
 def sima_rows(k):
     """default key-file rows (line id, segment, element), one response per row"""
     return [["ML%02d" % (j + 1), 1 + j % 2, 1 + j // 2] for j in range(k)]
@@ -105,26 +148,111 @@ def sima_names(k, rows=None):
     return ["%s_Seg%03d_El%03d_Te" % (ln, sg, el) for ln, sg, el in (rows or sima_rows(k))]
 
 
-def sima_keyfile(path, datafile, k, kind, rows=None):
-    rows = "".join(" %-4s      %8d  %8d  %8d  %16d\n" % (ln, sg, el, 1, j + 3) for j, (ln, sg, el) in enumerate(rows or sima_rows(k)))
+def sima_names2(sima, rows):
+    """names of a key file with several responses per row / another element kind (the documented SIMA naming: line id (`Lin<nn>` for
+    a number), `Seg<nnn>`, `El<nnn>` (elmfor) or `<nnn>` (elmtra), suffix of the degree of freedom in the LAST `following applies`
+    block: Te Mx My1 My2 Mz1 Mz2 Sy1 ... for beam elements, DOF<nn> for descriptions that are not recognised)"""
+    if sima["kind"] == "witurb":
+        return [(sima["turbine"] + "_" + c) if sima["new"] else c for c in sima["chans"]]
+    suff = [sf for _, sf in BEAM_DOFS] if sima["block"] in ("beam", "both") else ["Te"] if sima["block"] == "bar" else \
+        ["DOF%02d" % (i + 1) for i in range(9)]
+    el = "El" if sima["kind"] in ("elmfor", "elmsfo") else ""
+    out = []
+    for row in rows:
+        ln, sg, el_no = row[0], row[1], row[2]
+        nresp = row[3] if len(row) > 3 else 1
+        a = ("Lin" + str(ln).zfill(2)) if str(ln).isdigit() else str(ln)
+        for sf in suff[:nresp]:
+            out.append("%s_Seg%s_%s%s_%s" % (a, str(sg).zfill(3), el, str(el_no).zfill(3), sf))
+    return out
+
+
+def sima_keyfile(path, datafile, k, kind, rows=None, sima=None):
+    if sima is not None and sima["kind"] == "witurb":
+        with open(path, "w") as f:
+            f.write(WITURB_HEAD % dict(fn=datafile))
+            if sima["new"]:
+                f.write("'  column   wind     contents     unit      contents\n'    no    turbine  abbrivated              descriptive text\n")
+                f.write("       1     -      FORTRAN       -         FORTRAN specific data - IGNORE\n")
+                f.write("       2     -      Time          s         Time\n")
+                for j, c in enumerate(sima["chans"]):
+                    f.write("  %6d  %s   %-12s  kN        Result no %d of the turbine\n" % (j + 3, sima["turbine"], c, j + 1))
+            else:
+                f.write("'  column   contents     unit      contents\n'    no    abbrivated              descriptive text\n")
+                f.write("       1  FORTRAN specific data - IGNORE\n")
+                f.write("       2   Time          s         Time\n")
+                for j, c in enumerate(sima["chans"]):
+                    f.write("  %6d   %-12s  kN        Result no %d\n" % (j + 3, c, j + 1))
+        return
+    rows = rows or sima_rows(k)
+    block = sima["block"] if sima else "bar"
+    blocks = ""
+    if block in ("bar", "both"):
+        blocks += "\n   For each bar element the following applies :\n\n   DOF 1 = Axial force\n\n"
+    if block in ("beam", "both"):
+        blocks += "\n   For each beam element the following applies :\n\n" + "".join(
+            "   DOF%2d = %s\n" % (i + 1, d) for i, (d, _) in enumerate(BEAM_DOFS)) + "\n"
+    if block == "tracon":
+        blocks += "\n   For each element the following applies :\n" + "".join(
+            "   DOF %d = TRACON(%d,%d,IEL)\n" % (i + 1, i % 3 + 1, i // 3 + 1) for i in range(9)) + \
+            "   i.e. TRACON is printed column-wise\n   for the selected elements\n"
+    txt, col = "", 3
+    for row in rows:
+        ln, sg, el = row[0], row[1], row[2]
+        nresp = row[3] if len(row) > 3 else 1
+        stored = "%16d" % col if nresp == 1 else "%8d   -  %5d" % (col, col + nresp - 1)
+        txt += " %-4s      %8d  %8d  %8d  %s\n" % (ln, sg, el, nresp, stored)
+        col += nresp
     with open(path, "w") as f:
-        f.write(SIMA_KEY % dict(fn=datafile, kind=kind, rows=rows, last=k + 3))
+        f.write(SIMA_KEY_HEAD % dict(fn=datafile, kind=kind, rows=txt, last=col, blocks=blocks))
 
 
-def num(v):
-    return repr(float(v))
+def num(v, style="repr"):
+    v = float(v)
+    if style == "int" and v == int(v) and abs(v) < 2.0 ** 53:
+        return str(int(v))                      # a whole number written without a decimal point
+    if style == "exp":
+        return "%.17e" % v
+    return repr(v)
+
+
+def file_path(root, spec):
+    return os.path.join(root, spec.get("dir", ""), spec["base"] + "." + spec.get("ext", spec["fmt"]))
+
+
+def np_cols(spec):
+    """the columns as arrays of the dtype the file is to hold them in (binary containers: h5, pkl, mat, tdms)"""
+    dts = spec.get("dtype") or ["f8"] * len(spec["cols"])
+    return [np.array(c, dtype=float).astype(dt) for c, dt in zip(spec["cols"], dts)]
 
 
 def write_file(root, spec):
-    """spec: dict(fmt, base, names, time, cols, own, tdms_wf); returns the path of the data file"""
+    """spec: dict(fmt, base, names, time, cols, own, tdms_wf [, ext, dtype, text, delim, comments, ts_writer, sima, mat, tdms_time,
+    h5_scalar, pkl_tuples]); returns the path of the data file"""
     fmt, names = spec["fmt"], spec["names"]
     t = np.array(spec["time"], dtype=float)
     cols = [np.array(c, dtype=float) for c in spec["cols"]]
     n, k = len(t), len(names)
-    root = os.path.join(root, spec.get("dir", ""))
+    path = file_path(root, spec)
+    root = os.path.dirname(path)
     os.makedirs(root, exist_ok=True)
-    path = os.path.join(root, spec["base"] + "." + fmt)
-    if fmt == "ts":
+    style = spec.get("text", "repr")
+    if fmt == "ts" and spec.get("ts_writer") == "own":
+        # written here byte by byte (header record: number of samples, number of records, padding; then one float32 record per
+        # array), so that the reference does not depend on the library's own writer
+        with open(path, "wb") as f:
+            f.write(struct.pack("<%di" % n, *([n, k + 2] + [0] * (n - 2))))
+            f.write(struct.pack("<%df" % n, *t))
+            for c in cols:
+                f.write(struct.pack("<%df" % n, *c))
+        with open(os.path.splitext(path)[0] + ".key", "w") as f:
+            for line in spec.get("key_comments") or []:
+                f.write(line + "\n")
+            f.write("time\n")
+            for nm in names:
+                f.write(nm + "\n")
+            f.write("END\n")
+    elif fmt == "ts":
         from qats.io.direct_access import write_ts_data
         write_ts_data(path, t, {nm: (t, c) for nm, c in zip(names, cols)})
     elif fmt == "tda":
@@ -144,45 +272,65 @@ def write_file(root, spec):
                 f.write(struct.pack("<i", 4 * (k + 1)))
                 f.write(struct.pack("<%df" % (k + 1), t[i], *[c[i] for c in cols]))
                 f.write(struct.pack("<i", 4 * (k + 1)))
-        sima_keyfile(os.path.join(root, "key_" + spec["base"] + ".txt"), spec["base"] + ".bin", k, "BINARY", spec.get("sima_rows"))
+        sima_keyfile(os.path.join(root, "key_" + spec["base"] + ".txt"), spec["base"] + ".bin", k, "BINARY", spec.get("sima_rows"),
+                     spec.get("sima"))
     elif fmt == "asc":
         with open(path, "w") as f:
             f.write("# exported\n# time and responses column-wise\n")
             for i in range(n):
-                f.write("  ".join(num(v) for v in [t[i]] + [c[i] for c in cols]) + "\n")
-        sima_keyfile(os.path.join(root, "key_" + spec["base"] + ".txt"), spec["base"] + ".asc", k, "ASCII", spec.get("sima_rows"))
+                f.write("  ".join(num(v, style) for v in [t[i]] + [c[i] for c in cols]) + "\n")
+        sima_keyfile(os.path.join(root, "key_" + spec["base"] + ".txt"), spec["base"] + ".asc", k, "ASCII", spec.get("sima_rows"),
+                     spec.get("sima"))
     elif fmt == "dat":
+        d = spec.get("delim", "  ")
         with open(path, "w") as f:
-            f.write("# generated\n")
-            f.write("  ".join(["time"] + names) + "\n")
+            for i in range(spec.get("comments", 1)):
+                f.write("# generated (comment line %d)\n" % i)
+            f.write(d.join([spec.get("timekey", "time")] + names) + "\n")
             for i in range(n):
-                f.write("  ".join(num(v) for v in [t[i]] + [c[i] for c in cols]) + "\n")
+                f.write(d.join(num(v, style) for v in [t[i]] + [c[i] for c in cols]) + "\n")
     elif fmt == "csv":
+        d = spec.get("delim", ",")
         with open(path, "w") as f:
-            f.write(",".join(["time"] + names) + "\n")
+            f.write(d.join([spec.get("timekey", "time")] + names) + "\n")
             for i in range(n):
-                f.write(",".join(num(v) for v in [t[i]] + [c[i] for c in cols]) + "\n")
+                f.write(d.join(num(v, style) for v in [t[i]] + [c[i] for c in cols]) + "\n")
     elif fmt == "pkl":
         import pandas as pd
-        df = pd.DataFrame({nm: c for nm, c in zip(names, cols)})
-        df.index = t
+        labels = [tuple(x) for x in spec["pkl_tuples"]] if spec.get("pkl_tuples") else names
+        df = pd.DataFrame({nm: c for nm, c in zip(labels, np_cols(spec))})
+        if spec.get("pkl_tuples"):
+            df.columns = pd.MultiIndex.from_tuples(labels)
+        df.index = t.astype(spec["tdtype"]) if spec.get("tdtype") else t
         df.to_pickle(path)
     elif fmt == "h5":
         import h5py
         with h5py.File(path, "w") as f:
-            for nm, c, own in zip(names, cols, spec["own"]):
+            for nm, c, own in zip(names, np_cols(spec), spec["own"]):
                 d = f.create_dataset(nm.replace("\\", "/"), data=c)
-                d.attrs["start"] = np.array([own[0]])
-                d.attrs["delta"] = np.array([own[1] - own[0]])
-                d.attrs["name"] = np.array([nm.split("\\")[-1].encode()])
+                start, delta = own[0], (own[1] - own[0]) if len(own) > 1 else spec.get("h5_delta", 1.0)
+                if spec.get("h5_scalar"):
+                    d.attrs["start"] = float(start)             # scalar attributes (as the library's own writer stores them)
+                    d.attrs["delta"] = float(delta)
+                    d.attrs["name"] = nm.split("\\")[-1]
+                else:
+                    d.attrs["start"] = np.array([start])
+                    d.attrs["delta"] = np.array([delta])
+                    d.attrs["name"] = np.array([nm.split("\\")[-1].encode()])
             f.create_dataset("zz_not_a_series", data=np.array([1.0]))   # no start/delta attribute: must be ignored
     elif fmt == "mat":
         from scipy.io import savemat
-        d = {"Time": t}
-        for nm, c in zip(names, cols):
+        m = spec.get("mat") or {}
+        d = {m.get("timekey", "Time"): t.astype(spec["tdtype"]) if spec.get("tdtype") else t}
+        for nm, c in zip(names, np_cols(spec)):
             d[nm] = c
         d["fs"] = 2.0
         d["comment"] = "generated"
+        if m.get("extra"):
+            # fields that are not series: arrays of another length than the time array, the documented ignored fields
+            d["calib"] = np.arange(n + 2, dtype=float)
+            d["test_num"] = 7.0
+            d["test_date"] = "2020-01-01"
         savemat(path, d)
     elif fmt == "tdms":
         from nptdms import ChannelObject, TdmsWriter
@@ -191,18 +339,25 @@ def write_file(root, spec):
             g = nm.split("\\")[0]
             if g not in groups:
                 groups.append(g)
+        tt = spec.get("tdms_time") or {}
         with TdmsWriter(path) as w:
             objs = []
             for g in groups:
-                members = [(nm, c, own) for nm, c, own in zip(names, cols, spec["own"]) if nm.split("\\")[0] == g]
+                members = [(nm, c, own) for nm, c, own in zip(names, np_cols(spec), spec["own"]) if nm.split("\\")[0] == g]
                 if spec["tdms_wf"].get(g):
                     for nm, c, own in members:
                         objs.append(ChannelObject(g, nm.split("\\")[1], c, properties={
-                            "wf_start_offset": float(own[0]), "wf_increment": float(own[1] - own[0])}))
+                            "wf_start_offset": float(own[0]),
+                            "wf_increment": float(own[1] - own[0]) if len(own) > 1 else 1.0}))
                 else:
-                    objs.append(ChannelObject(g, "Time", np.array(members[0][2], dtype=float)))
+                    tname, last = tt.get(g, ["Time", False])
+                    tch = ChannelObject(g, tname, np.array(members[0][2], dtype=float))
+                    if not last:
+                        objs.append(tch)
                     for nm, c, own in members:
                         objs.append(ChannelObject(g, nm.split("\\")[1], c))
+                    if last:
+                        objs.append(tch)                       # the time channel need not be the first channel of its group
             w.write_segment(objs)
     else:
         raise ValueError(fmt)
@@ -296,9 +451,9 @@ def gen_spec(rng, fi, fmt, k=None, n=None, variant=None):
             cut = 3
         names = ["g1\\" + nm for nm in chosen[:cut]] + ["g2\\" + nm for nm in chosen[cut:]]
     elif fmt in ("csv", "pkl"):
-        names = pick(POOL_RICH + ["T [kN/m]"])        # unit brackets with a '/' (not for h5/tdms: group separator)
+        names = pick(POOL_RICH + ["T [kN/m]", "F(x)", "a^2"])   # unit brackets with a '/' (not for h5/tdms: group separator)
     elif fmt in ("ts", "tda", "dat"):
-        names = pick(POOL_PLAIN + ["Vel[m/s]"])
+        names = pick(POOL_PLAIN + ["Vel[m/s]", "F(x)", "a^2"])
     else:
         names = pick(POOL_PLAIN)
     if fmt == "h5":
@@ -337,6 +492,189 @@ def gen_spec(rng, fi, fmt, k=None, n=None, variant=None):
                 sima_rows=rows)
 
 
+# ----------------------------------------------------------------------------------------------------------
+# other spellings of the same content (file level): features that can be switched on for a file of a format
+# ----------------------------------------------------------------------------------------------------------
+FEATS = dict(
+    ts=["own", "mag", "irregular"], tda=["mag", "irregular"],
+    bin=["beam", "tracon", "witurb_new", "witurb_old", "mag", "irregular", "n1"],
+    asc=["beam", "text_int", "text_exp", "mag", "irregular"],
+    dat=["text_int", "text_exp", "tab", "comments0", "comments2", "timekey", "mag", "irregular"],
+    csv=["text_int", "text_exp", "semicolon", "tab", "timekey", "mag", "irregular", "n1"],
+    h5=["ext", "scalar", "nested", "dtype", "mag"],
+    pkl=["ext", "tuples", "dtype", "tint", "mag", "irregular", "n1"],
+    mat=["timekey", "extra", "dtype", "tint", "mag", "irregular"],
+    tdms=["timech", "dtype", "mag", "irregular", "n1"])
+
+# files with a fixed set of features: always part of the quick tier
+FEATURE_FILES = [
+    ("ts", ["own", "mag"]), ("ts", ["own", "irregular"]), ("tda", ["mag", "irregular"]),
+    ("bin", ["beam"]), ("bin", ["tracon", "mag"]), ("bin", ["witurb_new"]), ("bin", ["witurb_old", "irregular"]), ("bin", ["n1"]),
+    ("asc", ["beam", "text_int"]), ("asc", ["text_exp", "mag", "irregular"]),
+    ("dat", ["tab", "comments0", "text_int", "timekey"]), ("dat", ["comments2", "text_exp", "mag", "irregular"]),
+    ("csv", ["semicolon", "text_int", "timekey"]), ("csv", ["tab", "mag", "irregular"]), ("csv", ["n1"]),
+    ("h5", ["ext", "scalar", "nested"]), ("h5", ["dtype", "mag"]),
+    ("pkl", ["ext", "tuples", "dtype"]), ("pkl", ["tint", "mag", "irregular"]), ("pkl", ["n1"]),
+    ("mat", ["timekey", "extra", "dtype"]), ("mat", ["tint", "mag", "irregular"]),
+    ("tdms", ["timech", "dtype"]), ("tdms", ["mag", "irregular"]), ("tdms", ["n1", "timech"])]
+
+
+def h5_order(names):
+    """order in which the names of an .h5 file are met: h5py lists the members of a group by name; the reader works through ONE
+    list that starts with the members of the root and to which the members of a group are appended when the group is met"""
+    paths = [nm.split("\\") for nm in names]
+
+    def members(pre):
+        return sorted(set(q[len(pre)] for q in paths if q[:len(pre)] == pre and len(q) > len(pre)))
+    work = [[m] for m in members([])]
+    out, i = [], 0
+    while i < len(work):
+        cur = work[i]
+        i += 1
+        if cur in paths:
+            out.append("\\".join(cur))
+        else:
+            work += [cur + [m] for m in members(cur)]
+    return out
+
+
+def decorate(rng, sp, feats):
+    """switches features on for the file `sp` (in place): the same kind of content in another spelling the format allows"""
+    fmt, fi = sp["fmt"], sp["fi"]
+    feats = [f for f in feats if f in FEATS[fmt]]
+    if not feats:
+        return sp
+    sp["feats"] = sorted(feats)
+    n = len(sp["time"])
+
+    def fval(j, i):
+        return 1000.0 * (fi + 1) + 10.0 * (j + 1) + 0.25 * i
+
+    def ival(j, i):
+        return 1000.0 * (fi + 1) + 10.0 * (j + 1) + float(i % 8)
+
+    # ---- structure of the names
+    if fmt in ("bin", "asc") and any(f in feats for f in ("beam", "tracon", "witurb_new", "witurb_old")):
+        if fmt == "bin" and ("witurb_new" in feats or "witurb_old" in feats):
+            chans = rng.sample(["RotorSpeed", "GenTorq", "Fx", "FX", "Azimuth", "WiVel_x", "Time2", "GenPwr", "End1"], rng.randint(2, 4))
+            sp["sima"] = dict(kind="witurb", new="witurb_new" in feats, turbine="NREL5MW", chans=chans)
+            sp["base"] = "f%d_%s" % (fi, "witurb" if "witurb_new" in feats or rng.random() < 0.5 else "blresp")
+            sp["sima_rows"] = None
+        elif "beam" in feats:
+            # beam elements: several responses per key-file row; line ids that are numbers
+            sp["sima"] = dict(kind="elmfor", block="both" if fmt == "bin" else rng.choice(["beam", "both"]))   # (the last block counts)
+            ids = rng.sample(["ML01", "7", "12", "ml01", "RISER"], 3)
+            sp["sima_rows"] = [[ids[0], 1, 1, rng.choice([2, 3])], [ids[1], 1, 2, 1], [ids[2], 2, 1, rng.choice([1, 2])]]
+        else:
+            sp["sima"] = dict(kind="elmtra", block="tracon")
+            sp["base"] = "f%d_elmtra" % fi
+            sp["sima_rows"] = [["ML01", 1, 1, rng.choice([2, 3])], ["ML02", 1, 1, rng.choice([1, 2])]]
+        sp["names"] = sima_names2(sp["sima"], sp["sima_rows"])
+        sp["cols"] = [[fval(j, i) for i in range(n)] for j in range(len(sp["names"]))]
+    if fmt == "h5" and "nested" in feats:
+        leaves = [nm.split("\\")[-1] for nm in sp["names"]]
+        where = ["", "g1\\", "g2\\", "g1\\sub\\", "g0\\deep\\er\\", "g2\\"]
+        rng.shuffle(where)
+        sp["names"] = h5_order([where[j % len(where)] + lf for j, lf in enumerate(leaves)])
+    if fmt == "pkl" and "tuples" in feats:
+        # a frame with multi-level column labels: the name of a series is the labels joined by a space
+        tups, three = [], rng.random() < 0.5          # labels that are numbers are turned into text
+        for j, nm in enumerate(sp["names"]):
+            tups.append([rng.choice(["top", "low"]), nm] + ([j] if three else []))
+        sp["pkl_tuples"] = tups
+        sp["names"] = [" ".join(str(x) for x in tp) for tp in tups]
+    k = len(sp["names"])
+    # ---- number types
+    if "dtype" in feats:
+        sp["dtype"] = [rng.choice(["f8", "f4", "i4", "i8"]) for _ in range(k)]
+        if not any(d.startswith("i") for d in sp["dtype"]):
+            sp["dtype"][rng.randrange(k)] = "i4"
+        for j, d in enumerate(sp["dtype"]):
+            if d.startswith("i"):
+                sp["cols"][j] = [ival(j, i) for i in range(n)]
+    if "tint" in feats or "text_int" in feats:
+        t0, dt = rng.choice([0, 2, -1]), rng.choice([1, 2])
+        sp["time"] = [float(t0 + dt * i) for i in range(n)]
+        if "tint" in feats:
+            sp["tdtype"] = "i8"
+    if "text_int" in feats:
+        sp["text"] = "int"
+        for j in (range(k) if rng.random() < 0.4 else [0]):
+            sp["cols"][j] = [ival(j, i) for i in range(n)]
+    if "text_exp" in feats:
+        sp["text"] = "exp"
+    # ---- layout
+    if "tab" in feats:
+        sp["delim"] = "\t"
+    if "semicolon" in feats:
+        sp["delim"] = ";"
+    if "comments0" in feats:
+        sp["comments"] = 0
+    if "comments2" in feats:
+        sp["comments"] = 2
+    if "timekey" in feats:
+        if fmt == "mat":
+            sp["mat"] = dict(sp.get("mat") or {}, timekey=rng.choice(["time", "Time_s", "time1"]))
+        else:
+            sp["timekey"] = rng.choice([c for c in ["Time", "Time_s", "time[s]", "t"][:4 if fmt == "csv" else 3] if c not in sp["names"]])
+    if "extra" in feats:
+        sp["mat"] = dict(sp.get("mat") or {}, extra=True)
+    if "ext" in feats:
+        sp["ext"] = dict(h5="hdf5", pkl="pickle")[fmt]
+    if "scalar" in feats:
+        sp["h5_scalar"] = True
+    if "own" in feats:
+        sp["ts_writer"] = "own"
+        sp["key_comments"] = rng.choice([[], ["** written by the check"], ["' a remark", "** another one"]])
+    if "timech" in feats:
+        # at least the first group gets a time channel, called time or Time, as first or last channel of the group
+        g = sp["names"][0].split("\\")[0]
+        sp["tdms_wf"] = dict(sp["tdms_wf"], **{g: False})
+        first = [o for nm, o in zip(sp["names"], sp["own"]) if nm.split("\\")[0] == g][0]
+        sp["own"] = [list(first) if nm.split("\\")[0] == g else o for nm, o in zip(sp["names"], sp["own"])]
+        sp["tdms_time"] = {gg: [rng.choice(["time", "Time"]), rng.random() < 0.6] for gg in ("g1", "g2")}
+    # ---- values
+    if "irregular" in feats:
+        whole = "tint" in feats or "text_int" in feats
+
+        def irregular(t0):
+            out = [t0]
+            for _ in range(n - 1):
+                out.append(out[-1] + rng.choice([1.0, 2.0, 3.0] if whole else [0.25, 0.5, 1.0, 2.0]))
+            return out
+        if fmt == "tdms":
+            per = {}
+            for j, nm in enumerate(sp["names"]):
+                g = nm.split("\\")[0]
+                if not sp["tdms_wf"].get(g):
+                    per.setdefault(g, irregular(sp["own"][j][0]))
+                    sp["own"][j] = per[g]
+        elif sp["own"] is None:
+            sp["time"] = irregular(sp["time"][0])
+    if "mag" in feats:
+        p = 100 if fmt in FLOAT32 else 200
+        zero = False
+        for j in range(k):
+            if (sp.get("dtype") or ["f8"] * k)[j] != "f8":
+                continue
+            f = rng.choice([2.0 ** p, 2.0 ** -p, -1.0, -(2.0 ** -p), 0.0, 1.0])
+            if f == 0.0:
+                if zero:
+                    continue
+                zero = True
+            sp["cols"][j] = [f * v for v in sp["cols"][j]]
+    if "n1" in feats:
+        sp["time"] = sp["time"][:1]
+        sp["cols"] = [c[:1] for c in sp["cols"]]
+        if sp["own"]:
+            sp["own"] = [o[:1] for o in sp["own"]]
+    return sp
+
+
+def random_feats(rng, fmt):
+    return [f for f in FEATS[fmt] if f != "n1" and rng.random() < 0.15]
+
+
 def stored(spec, j):
     """what the generator wrote under the j-th name: (name, time, data)"""
     return spec["names"][j], (spec["own"][j] if spec["own"] else spec["time"]), spec["cols"][j]
@@ -353,6 +691,8 @@ def resolve(pat, specs, paths):
         return paths[pat[1]] + os.path.sep + specs[pat[1]]["names"][pat[2]]
     if kind == "file":
         return os.path.basename(paths[pat[1]]) + os.path.sep + "*"
+    if kind == "rel":
+        return os.path.basename(paths[pat[1]]) + os.path.sep + specs[pat[1]]["names"][pat[2]]      # <file name>/<series name>
     raise ValueError(pat)
 
 
@@ -360,6 +700,8 @@ def gen_pattern(rng, specs, loaded):
     fi = rng.choice(loaded) if loaded else 0
     names = specs[fi]["names"]
     r = rng.random()
+    if r < 0.06:
+        return ["rel", fi, rng.randrange(len(names))]
     if r < 0.55:
         return ["lit", rng.choice(names)]
     if r < 0.65:
@@ -374,40 +716,120 @@ def gen_pattern(rng, specs, loaded):
     return ["lit", rng.choice(["nomatch", "?", "*a*"])]
 
 
-def gen_history(rng, specs, maxops=6):
-    """specs: the files of this database (1-3); ops are lists (JSON friendly)"""
+MULTI = ("getm", "getd", "getl", "getda", "copy", "update", "iter", "app_read", "getdf")
+FORCED_STORE = dict(copy=True, update=True, iter=True, app_read=False)      # entry points that fix the store flag
+FORCED_FULL = dict(copy=True, update=True, iter=False, app_read=False, getl=False, getdf=False)
+
+
+def gen_style(rng, api, sel, store):
+    """another way to write the same call: positional arguments, defaults left out, tuple / bare string / bare integer / ndarray
+    instead of a list; `scribble`: the caller overwrites the arrays of the returned series afterwards (only series that are not
+    the cached objects are touched)"""
+    st = {}
+    if rng.random() < 0.2 and api in ("get", "geta", "getm", "getd", "getl", "getda"):
+        st["pos"] = True
+    if rng.random() < 0.2:
+        st["dflt"] = True
+    if api not in ("get", "geta"):
+        if sel[0] == "names" and sel[1] is not None:
+            r = rng.random()
+            if r < 0.2:
+                st["form"] = "tuple"
+            elif r < 0.5 and len(sel[1]) == 1:
+                st["form"] = "str"
+        elif sel[0] == "ind":
+            r = rng.random()
+            if r < 0.15:
+                st["form"] = "tuple"
+            elif r < 0.3:
+                st["form"] = "arr"
+            elif r < 0.6 and len(sel[1]) == 1:
+                st["form"] = "int"
+    if api in ("copy", "update") and rng.random() < 0.5:
+        st["shallow"] = True
+    if not store and api in ("get", "getm", "getd", "getl", "app_read") and rng.random() < 0.3:
+        st["scribble"] = True
+    return st
+
+
+def gen_load_style(rng, first, single):
+    st = {}
+    if first and rng.random() < 0.35:
+        st["via"] = rng.choice(["fromfile", "fromfile", "app"])
+    r = rng.random()
+    if st.get("via") == "app" or not single:
+        st["form"] = rng.choice(["list", "tuple"])
+    elif r < 0.2:
+        st["form"] = "list"
+    elif r < 0.3:
+        st["form"] = "tuple"
+    elif r < 0.45:
+        st["form"] = "glob"
+    if rng.random() < 0.3:
+        st["rel"] = True
+    if rng.random() < 0.2 and st.get("via") != "app":
+        st["pos"] = True
+    return st
+
+
+def gen_history(rng, specs, maxops=6, plain=False):
+    """specs: the files of this database (1-3); ops are lists (JSON friendly).  `plain`: only the historical spellings."""
     order = list(range(len(specs)))
     rng.shuffle(order)
-    ops = [["load", order[0], rng.random() < 0.3]]
-    loaded, todo = [order[0]], order[1:]
-    nkeys = len(specs[order[0]]["names"])
+    loaded, todo = [], list(order)
+    ops = []
+
+    def load_op():
+        first = not ops
+        if len(todo) >= 2 and not plain and rng.random() < 0.3:
+            fis = [todo.pop(0), todo.pop(0)]                               # several files in one call
+        else:
+            fis = [todo.pop(0)]
+        st = {} if plain else gen_load_style(rng, first, len(fis) == 1)
+        read = rng.random() < 0.3 and st.get("via") != "app"
+        loaded.extend(fis)
+        return ["load", fis[0] if len(fis) == 1 and st.get("form") not in ("list", "tuple") else fis, read] + ([st] if st else [])
+    ops.append(load_op())
     for _ in range(rng.randint(1, maxops - 1)):
+        nkeys = sum(len(specs[fi]["names"]) for fi in loaded)
         if todo and rng.random() < 0.35:
-            fi = todo.pop(0)
-            ops.append(["load", fi, rng.random() < 0.3])
-            loaded.append(fi)
-            nkeys += len(specs[fi]["names"])
+            ops.append(load_op())
             continue
-        if rng.random() < 0.04:
+        r = rng.random()
+        if r < 0.04:
             ops.append(["load", rng.choice(loaded), False])      # refused: already registered
+            continue
+        if r < 0.07 and not plain:
+            # refused: a file that does not exist, alone or after a new file in the same call (nothing may be registered then)
+            ops.append(["load", "missing", False] if not todo or rng.random() < 0.5 else
+                       ["load", [todo[0], rng.choice(["missing", loaded[0]])], False, dict(form="list")])
             continue
         store = rng.random() < 0.6
         api = rng.choice(["getm", "getm", "getd", "getl", "getda", "get", "geta"])
+        if not plain and rng.random() < 0.15:
+            api = rng.choice(["copy", "update", "iter", "app_read"])
         if api in ("get", "geta"):
             if rng.random() < 0.6:
                 sel = ["name", gen_pattern(rng, specs, loaded)]
             else:
-                sel = ["ind", rng.randrange(nkeys + (1 if rng.random() < 0.1 else 0))]
-            ops.append([api, sel, store])
+                i = rng.randrange(nkeys + (1 if rng.random() < 0.1 else 0))
+                if not plain and rng.random() < 0.2:
+                    i = i - nkeys - (1 if rng.random() < 0.1 else 0)         # counted from the end
+                sel = ["ind", i]
+            ops.append([api, sel, store] + ([] if plain else [gen_style(rng, api, sel, store)]))
         else:
             r = rng.random()
-            if r < 0.08:
+            if api == "iter" or r < 0.08:
                 sel = ["names", None]
-            elif r < 0.65:
+            elif r < 0.65 or api in ("copy", "update", "app_read"):
                 sel = ["names", [gen_pattern(rng, specs, loaded) for _ in range(rng.choice([1, 1, 2, 2, 3, 4]))]]
             else:
                 sel = ["ind", [rng.randrange(nkeys + (1 if rng.random() < 0.03 else 0)) for _ in range(rng.choice([1, 2, 2, 3, 4]))]]
-            ops.append([api, sel, store, rng.random() < 0.6])
+                if not plain and rng.random() < 0.25:
+                    sel[1] = [i - nkeys if rng.random() < 0.5 else i for i in sel[1]]
+            store = FORCED_STORE.get(api, store)
+            full = FORCED_FULL.get(api, rng.random() < 0.6)
+            ops.append([api, sel, store, full] + ([] if plain else [gen_style(rng, api, sel, store)]))
     return ops
 
 
@@ -449,11 +871,83 @@ def sweep_history(spec, rng):
     return ops
 
 
+def restyle(rng, ops, prob=0.5):
+    """the same history with some of the calls written another way (see gen_style / gen_load_style)"""
+    out = []
+    for n, op in enumerate(ops):
+        op = list(op)
+        if op[0] == "load":
+            if len(op) == 3 and not isinstance(op[1], list) and op[1] != "missing" and rng.random() < prob:
+                st = gen_load_style(rng, n == 0, True)
+                if st.get("via") == "app" and op[2]:
+                    st.pop("via")
+                if st.get("form") in ("list", "tuple"):
+                    op[1] = [op[1]]
+                if st:
+                    op.append(st)
+        elif op[0] in ("get", "geta"):
+            if len(op) == 3 and rng.random() < prob:
+                op.append(gen_style(rng, op[0], op[1], op[2]))
+        elif len(op) == 4 and rng.random() < prob:
+            op.append(gen_style(rng, op[0], op[1], op[2]))
+        out.append(op)
+    return out
+
+
+def entry_history(spec, rng):
+    """one file, every public entry point that hands out series of a file-backed database, each on an uncached and a cached
+    database state: iteration, copy(), update(), the application helpers, to_dataframe(), get/getm with indices counted from the
+    end; the series asked for are a proper subset in non-file order"""
+    names = spec["names"]
+    k = len(names)
+    sub = [k - 1, 0] if k > 1 else [0]
+    pats = [["lit", names[j]] for j in sub]
+    ops = [["load", [0], False, dict(via=rng.choice(["fromfile", "app"]), form=rng.choice(["list", "tuple"]), rel=rng.random() < 0.5)]]
+    # (to_dataframe only where the series share one time array of more than one sample: its common-time diagnosis is not about reading)
+    frame = spec["own"] is None and len(spec["time"]) > 1
+    apis = ["app_read", "copy", "update", "getl", "getd"] + (["getdf"] if frame else [])
+    rng.shuffle(apis)
+    for api in apis:
+        store = FORCED_STORE.get(api, rng.random() < 0.5)
+        ops.append([api, ["names", pats], store, FORCED_FULL.get(api, True), gen_style(rng, api, ["names", pats], store)])
+    ops.append(["getm", ["ind", [-1, 0] if k > 1 else [-1]], False, True, dict(form=rng.choice(["list", "tuple", "arr"]))])
+    ops.append(["get", ["ind", -k], rng.random() < 0.5, dict(pos=rng.random() < 0.5)])
+    ops.append(["iter", ["names", None], True, False, {}])
+    ops.append(["geta", ["ind", -1], True, {}])
+    if frame:
+        ops.append(["getdf", ["names", None], True, False, {}])
+    return ops
+
+
+def pair_history(specs, rng):
+    """several files in one database (same format with another layout, the same base name in another directory ...): loaded in one
+    call or one by one, then the series of the files asked for alternately by full key and by index, uncached and cached"""
+    nf = len(specs)
+    if rng.random() < 0.5:
+        ops = [["load", list(range(nf)), False, dict(form=rng.choice(["list", "tuple"]), rel=rng.random() < 0.5)]]
+    else:
+        ops = [["load", fi, rng.random() < 0.2] for fi in range(nf)]
+    keys = [(fi, j) for fi in range(nf) for j in range(len(specs[fi]["names"]))]
+    mixed = sorted(keys, key=lambda fj: (fj[1], -fj[0]))          # file 1 col 0, file 0 col 0, file 1 col 1, ...
+    pos = {fj: i for i, fj in enumerate(keys)}
+    ops.append(["getm", ["names", [["key", fi, j] for fi, j in mixed]], False, True])
+    ops.append(["getl", ["ind", [pos[fj] for fj in mixed[::-1]]], rng.random() < 0.5, False])
+    for fi, j in mixed[::2]:
+        ops.append([rng.choice(["get", "geta"]), ["name", ["key", fi, j]], rng.random() < 0.5])
+    ops.append(["getda", ["names", [["key", fi, j] for fi, j in mixed[1::2]] or [["key", 0, 0]]], True, True])
+    ops.append(["getm", ["names", None], False, True])
+    return restyle(rng, ops, 0.3)
+
+
 def rewritten(rng, sp, fi, mode):
     """contents for a later version of the file of `sp` at the SAME path: mode 'keep' = unchanged, 'values' = same names and length,
     other time and data values, 'new' = other names / number of series / length"""
     if mode == "keep":
         return sp
+    if mode == "new" and (sp.get("sima") or sp.get("feats")):
+        mode = "values"
+    if mode == "values" and sp.get("feats"):
+        return sp                           # decorated files are not re-valued (number types and magnitudes belong together)
     if mode == "values":
         new = dict(sp, fi=fi)
         new["cols"] = [[1000.0 * (fi + 1) + 10.0 * (j + 1) + 0.25 * i for i in range(len(c))] for j, c in enumerate(sp["cols"])]
@@ -483,30 +977,72 @@ def session_histories(rng, first, fi0):
     return res
 
 
+def op_store(op):
+    return FORCED_STORE.get(op[0], op[2])
+
+
+def op_style(op):
+    n = 3 if op[0] in ("load", "get", "geta") else 4
+    return op[n] if len(op) > n and isinstance(op[n], dict) else {}
+
+
+def load_plan(op, loaded):
+    """(files that the call registers, the file it is refused for | None): a call with several files registers all or nothing"""
+    fis = op[1] if isinstance(op[1], list) else [op[1]]
+    seen = []
+    for fi in fis:
+        if fi == "missing" or fi in loaded or fi in seen:
+            return [], fi
+        seen.append(fi)
+    return fis, None
+
+
+def missing_path(paths):
+    return os.path.join(os.path.dirname(os.path.dirname(paths[0])), "no_such_file.ts")
+
+
 def encode(specs, paths, ops):
-    toks = []
+    """the history in the model's line protocol; returns (line, number of model records per op).  Spellings do not reach the model:
+    a call with several files is the sequence of single loads (or the one refused load), an index counted from the end is the
+    index counted from the start, every multi-series entry point is a `getm` with the store flag the entry point uses."""
+    toks, nrec = [], []
     for sp, p in zip(specs, paths):
         vals = list(sp["time"]) + [v for c in sp["cols"] for v in c]
         if sp["own"]:
             vals += [v for c in sp["own"] for v in c]
         toks.append("F %s %s %s %d %d %d %s" % (sp["fmt"], hx(p), hxlist(sp["names"]), len(sp["time"]), len(sp["names"]),
                                                 1 if sp["own"] else 0, " ".join(core.rat(v) for v in vals)))
+    loaded = []
+
+    def norm(i):
+        nkeys = sum(len(specs[fi]["names"]) for fi in loaded)
+        return i if i >= 0 else i + nkeys if i + nkeys >= 0 else nkeys          # too far from the end: out of range
+
     for op in ops:
         if op[0] == "load":
-            toks.append("load %s %d" % (hx(paths[op[1]]), op[2]))
+            good, bad = load_plan(op, loaded)
+            if bad is not None:
+                toks.append("load %s %d" % (hx(missing_path(paths) if bad == "missing" else paths[bad]), op[2]))
+                nrec.append(1)
+            else:
+                for fi in good:
+                    toks.append("load %s %d" % (hx(paths[fi]), op[2]))
+                loaded += good
+                nrec.append(len(good))
             continue
-        sel, store = op[1], op[2]
+        sel, store = op[1], op_store(op)
+        nrec.append(1)
         if op[0] in ("get", "geta"):
             if sel[0] == "name":
                 toks.append("get %d n %s" % (store, hx(resolve(sel[1], specs, paths))))
             else:
-                toks.append("get %d i %d" % (store, sel[1]))
+                toks.append("get %d i %d" % (store, norm(sel[1])))
         else:
             if sel[0] == "names":
                 toks.append("getm %d n %s" % (store, "none" if sel[1] is None else hxlist([resolve(p, specs, paths) for p in sel[1]])))
             else:
-                toks.append("getm %d i %s" % (store, ",".join(str(i) for i in sel[1]) or "="))
-    return "rb.run " + " ; ".join(toks)
+                toks.append("getm %d i %s" % (store, ",".join(str(norm(i)) for i in sel[1]) or "="))
+    return "rb.run " + " ; ".join(toks), nrec
 
 
 def parse_reply(reply):
@@ -537,50 +1073,171 @@ def tol_of(fmt):
 
 
 def close(a, b, tol):
-    a, b = np.asarray(a, dtype=float), np.asarray([float(v) for v in b], dtype=float)
-    return a.shape == b.shape and bool(np.all(np.abs(a - b) <= tol * np.maximum(1.0, np.abs(b))))
+    """relative agreement; for a stored array whose largest magnitude is below 1 the allowance scales with that magnitude (an array
+    of zeros must come back as zeros)"""
+    try:
+        a, b = np.asarray(a, dtype=float), np.asarray([float(v) for v in b], dtype=float)
+        if a.shape != b.shape:
+            return False
+        if b.size == 0:
+            return True
+        scale = min(1.0, float(np.max(np.abs(b))))
+        return bool(np.all(np.abs(a - b) <= tol * np.maximum(scale, np.abs(b))))
+    except Exception:
+        return False
 
 
-def call(db, op, specs, paths):
+def flist(a):
+    try:
+        return [float(v) for v in np.asarray(a).ravel()]
+    except Exception:
+        return repr(a)[:200]
+
+
+def spell_load(op, paths):
+    """the `filenames` argument of a load in the spelling the op asks for"""
+    st = op_style(op)
+    fis = op[1] if isinstance(op[1], list) else [op[1]]
+    ps = [missing_path(paths) if fi == "missing" else paths[fi] for fi in fis]
+    if st.get("rel"):
+        ps = [os.path.relpath(q) for q in ps]                  # relative to the working directory
+    form = st.get("form", "list" if isinstance(op[1], list) else "str")
+    if form == "glob":
+        stem, ext = os.path.splitext(ps[0])
+        return stem[:-1] + glob_tail(stem) + ext
+    if form == "tuple":
+        return tuple(ps)
+    if form == "list":
+        return list(ps)
+    return ps[0]
+
+
+def glob_tail(stem):
+    """wildcard for the last character of the file stem ('?' or a one-character class; decided by the name, not by chance)"""
+    return "?" if len(stem) % 2 else "[%s]" % stem[-1]
+
+
+def spell_sel(op, specs, paths):
+    """(names, ind) in the spelling the op asks for"""
+    sel, st = op[1], op_style(op)
+    form = st.get("form", "list")
+    if sel[0] in ("name", "names"):
+        if sel[0] == "name":
+            return resolve(sel[1], specs, paths), None
+        if sel[1] is None:
+            return None, None
+        names = [resolve(q, specs, paths) for q in sel[1]]
+        return (tuple(names) if form == "tuple" else names[0] if form == "str" and len(names) == 1 else names), None
+    if isinstance(sel[1], int):
+        return None, sel[1]
+    ind = list(sel[1])
+    return None, (tuple(ind) if form == "tuple" else np.array(ind, dtype=int) if form == "arr" and ind else
+                  ind[0] if form == "int" and len(ind) == 1 else ind)
+
+
+def scribble(db, objs):
+    """what a caller may do with series it was handed that are not held by the database: overwrite their arrays in place"""
+    held = set(id(v) for v in db.register.values() if v is not None)
+    for ts in objs:
+        if id(ts) not in held:
+            try:
+                ts.t[...] = -7777.0
+                ts.x[...] = -7777.0
+            except Exception:
+                pass
+
+
+def call(state, op, specs, paths):
     """one operation on the real database -> 'done' | 'err kind' | list of (container key | None, name | None, t, x)"""
+    from qats import TsDB
+    db = state["db"]
+    st = op_style(op)
     try:
         if op[0] == "load":
-            db.load(paths[op[1]], read=op[2])
+            arg = spell_load(op, paths)
+            via = st.get("via", "load")
+            if via == "fromfile":
+                state["db"] = TsDB.fromfile(arg, op[2]) if st.get("pos") else TsDB.fromfile(arg, read=op[2])
+            elif via == "app":
+                from qats.app.funcs import import_from_file
+                state["db"] = import_from_file(arg)
+            elif st.get("pos"):
+                db.load(arg, op[2])
+            else:
+                db.load(arg, read=op[2])
             return "done"
-        sel, store = op[1], op[2]
-        if op[0] in ("get", "geta"):
-            kw = dict(name=resolve(sel[1], specs, paths)) if sel[0] == "name" else dict(ind=sel[1])
-            if op[0] == "get":
-                ts = db.get(store=store, **kw)
-                return [(None, ts.name, np.array(ts.t), np.array(ts.x))]
-            t, x = db.geta(store=store, **kw)
-            return [(None, None, t, x)]
-        if sel[0] == "names":
-            kw = dict(names=None if sel[1] is None else [resolve(p, specs, paths) for p in sel[1]])
-        else:
-            kw = dict(ind=list(sel[1]))
+        api, store = op[0], op_store(op)
+        names, ind = spell_sel(op, specs, paths)
+        skw = {} if (st.get("dflt") and store) else dict(store=store)
+
+        def arr(ts):
+            return np.array(ts.t), np.array(ts.x)
+        if api in ("get", "geta"):
+            f = getattr(db, api)
+            if st.get("pos"):
+                out = f(names, ind, store)
+            elif names is not None:
+                out = f(name=names, **skw)
+            else:
+                out = f(ind=ind, **skw)
+            if api == "get":
+                res = [(None, out.name) + arr(out)]
+                if st.get("scribble"):
+                    scribble(db, [out])
+                return res
+            return [(None, None, np.array(out[0]), np.array(out[1]))]
         fullkey = op[3]
-        if op[0] in ("getm", "getd"):
-            c = getattr(db, op[0])(store=store, fullkey=fullkey, **kw)
-            return [(k if fullkey else None, ts.name, np.array(ts.t), np.array(ts.x)) for k, ts in c.items()]
-        if op[0] == "getl":
-            return [(None, ts.name, np.array(ts.t), np.array(ts.x)) for ts in db.getl(store=store, **kw)]
-        if op[0] == "getda":
-            c = db.getda(store=store, fullkey=fullkey, **kw)
-            return [(k if fullkey else None, None, np.array(t), np.array(x)) for k, (t, x) in c.items()]
+        kw = dict(names=names) if ind is None else dict(ind=ind)
+        if api in ("getm", "getd", "getda"):
+            fkw = {} if (st.get("dflt") and not fullkey) else dict(fullkey=fullkey)
+            c = getattr(db, api)(names, ind, store, fullkey) if st.get("pos") else getattr(db, api)(**kw, **skw, **fkw)
+            if api == "getda":
+                return [(k if fullkey else None, None, np.array(t), np.array(x)) for k, (t, x) in c.items()]
+            res = [(k if fullkey else None, ts.name) + arr(ts) for k, ts in c.items()]
+            if st.get("scribble"):
+                scribble(db, list(c.values()))
+            return res
+        if api == "getl":
+            lst = db.getl(names, ind, store) if st.get("pos") else db.getl(**kw, **skw)
+            res = [(None, ts.name) + arr(ts) for ts in lst]
+            if st.get("scribble"):
+                scribble(db, lst)
+            return res
+        if api == "iter":
+            return [(None, ts.name) + arr(ts) for ts in db]
+        if api in ("copy", "update"):
+            if api == "copy":
+                new = db.copy(names=names, shallow=bool(st.get("shallow")))
+            else:
+                new = TsDB()
+                new.update(db, names=names, shallow=bool(st.get("shallow")))
+            return [(k, new.register[k].name) + arr(new.register[k]) for k in new.register_keys]
+        if api == "app_read":
+            from qats.app.funcs import read_timeseries
+            c = read_timeseries(db, names)
+            res = [(None, ts.name) + arr(ts) for ts in c.values()]
+            if st.get("scribble"):
+                scribble(db, list(c.values()))
+            return res
+        if api == "getdf":
+            df = db.to_dataframe(names=names, **skw)
+            return [(None, None, np.array(df.index.values), np.array(df.iloc[:, j].values)) for j in range(df.shape[1])]
         raise ValueError(op[0])
+    except FileExistsError:
+        return "err file"
     except Exception as e:
         return err_enum(e)
 
 
 def simple_expectation(op, specs, paths, loaded):
     """keys a request selects BY CONSTRUCTION (no wildcard semantics needed): exact names that occur in exactly one loaded file,
-    full keys, '*' alone / names=None, register indices.  None when the request is not of that simple kind."""
+    full keys, '*' alone / names=None, register indices (from the start or from the end).  None when the request is not of that
+    simple kind."""
     allkeys = [(fi, j) for fi in loaded for j in range(len(specs[fi]["names"]))]
     sel = op[1]
     if sel[0] == "ind":
         idx = [sel[1]] if isinstance(sel[1], int) else list(sel[1])
-        if any(i >= len(allkeys) for i in idx):
+        if any(i >= len(allkeys) or i < -len(allkeys) for i in idx):
             return None
         want = [allkeys[i] for i in idx]
     elif sel[0] == "name" or sel[0] == "names":
@@ -594,6 +1251,13 @@ def simple_expectation(op, specs, paths, loaded):
                     if p[1] not in loaded:
                         return None
                     want.append((p[1], p[2]))
+                elif p[0] == "rel" and not any(ch in specs[p[1]]["names"][p[2]] for ch in "*?[]()^"):
+                    base = os.path.basename(paths[p[1]])
+                    hits = [(fi, j) for (fi, j) in allkeys if os.path.basename(paths[fi]) == base
+                            and specs[fi]["names"][j] == specs[p[1]]["names"][p[2]]]
+                    if len(hits) != 1 or p[1] not in loaded:
+                        return None
+                    want += hits
                 elif p[0] == "lit" and not any(ch in p[1] for ch in "*?[]()^"):
                     hits = [(fi, j) for (fi, j) in allkeys if specs[fi]["names"][j] == p[1]]
                     if len(hits) != 1:       # absent, or present in several loaded files: not a simple request
@@ -610,14 +1274,19 @@ def simple_expectation(op, specs, paths, loaded):
     return out
 
 
-def execute(specs, paths, ops, model=None, chk=None, inp=None, verbose=False):
+VALUES = "a series read from a file carries exactly the time and data arrays stored in the file under that name"
+
+
+def execute(specs, paths, ops, model=None, chk=None, inp=None, verbose=False, nrec=None, shadow=None):
     """runs a history on the real TsDB; compares with the parsed model reply (if given) and evaluates the oracles.
+    `shadow`: ops for a second database of the same process on the same files, run alternately with `ops` (oracles only).
     Returns (disagreements, failures) as lists of dicts; when `chk` is given they are recorded there as well."""
     from qats import TsDB
-    db = TsDB()
+    state, state2 = dict(db=TsDB()), dict(db=TsDB())
     dis, fails = [], []
     keymap = {paths[fi] + os.path.sep + nm: (fi, j) for fi, sp in enumerate(specs) for j, nm in enumerate(sp["names"])}
-    loaded = []
+    loaded, loaded2 = [], []
+    nrec = nrec or [1] * len(ops)
 
     def fail(text, upto, expected, observed, **kw):
         i2 = dict(inp or {}, upto=upto)
@@ -645,90 +1314,125 @@ def execute(specs, paths, ops, model=None, chk=None, inp=None, verbose=False):
         if close(t, wt, tol) and close(x, wx, tol):
             return
         if sp["fmt"] == "asc" and close(t, wt[1:], tol) and close(x, wx[1:], tol):
-            fail("a series read from a file carries exactly the time and data arrays stored in the file under that name", upto,
-                 dict(name=wn, t=wt, x=wx), dict(t=list(map(float, t)), x=list(map(float, x))), clause="values", fmt="asc", how=how,
-                 diff=F15)
+            fail(VALUES, upto, dict(name=wn, t=wt, x=wx), dict(t=flist(t), x=flist(x)), clause="values", fmt="asc", how=how, diff=F15)
             return
-        fail("a series read from a file carries exactly the time and data arrays stored in the file under that name", upto,
-             dict(name=wn, t=wt, x=wx), dict(t=list(map(float, t)), x=list(map(float, x))), clause="values", fmt=sp["fmt"], how=how)
+        fail(VALUES, upto, dict(name=wn, t=wt, x=wx), dict(t=flist(t), x=flist(x)), clause="values", fmt=sp["fmt"], how=how)
 
-    for n, op in enumerate(ops):
-        res = call(db, op, specs, paths)
-        if op[0] == "load" and res == "done":
-            loaded.append(op[1])
-            # the names a file is asked for are the names stored in it: all of them registered, in file order, nothing else
-            pre = paths[op[1]] + os.path.sep
-            regs = [k[len(pre):] for k in db.register_keys if k.startswith(pre)]
-            if chk is not None:
-                chk.count("oracle:register")
-            if regs != list(specs[op[1]]["names"]):
-                fail("every series stored in a file is registered under its name when the file is loaded (all names, file order)",
-                     n + 1, list(specs[op[1]]["names"]), regs, clause="register", fmt=specs[op[1]]["fmt"])
-            if op[2]:
-                # eager load: everything on the file is cached now; check it against the generator directly
-                for j in range(len(specs[op[1]]["names"])):
-                    ts = db.register.get(pre + specs[op[1]]["names"][j])
-                    if ts is None:
-                        fail("load(read=True) reads and stores every series of the file", n + 1, "cached", "None", clause="eager")
-                    else:
-                        check_series(n + 1, (op[1], j), (None, ts.name, np.array(ts.t), np.array(ts.x)), "eager load")
-        cached = [k for k in db.register_keys if db.register.get(k) is not None]
-        # ---- oracles (model independent)
+    def oracles(st8, op, res, ldd, upto, who):
+        """the clauses of the property on the outcome `res` of `op` (model independent)"""
+        db = st8["db"]
+        if op[0] == "load":
+            good, bad = load_plan(op, ldd)
+            if res != "done":
+                if bad is None:
+                    fail("a readable file that is not yet registered can be loaded", upto, "done", res, clause="load",
+                         fmt=[specs[fi]["fmt"] for fi in good], how=who)
+                return
+            if bad is not None:
+                return                              # (the refusal itself belongs to the registry property; the model tie reports it)
+            for fi in good:
+                ldd.append(fi)
+                # the names a file is asked for are the names stored in it: all of them registered, in file order, nothing else
+                pre = paths[fi] + os.path.sep
+                regs = [k[len(pre):] for k in db.register_keys if k.startswith(pre)]
+                if chk is not None:
+                    chk.count("oracle:register")
+                if regs != list(specs[fi]["names"]):
+                    fail("every series stored in a file is registered under its name when the file is loaded (all names, file order)",
+                         upto, list(specs[fi]["names"]), regs, clause="register", fmt=specs[fi]["fmt"], how=who)
+                if op[2] and op_style(op).get("via") != "app":
+                    # eager load: everything on the file is cached now; check it against the generator directly
+                    for j in range(len(specs[fi]["names"])):
+                        ts = db.register.get(pre + specs[fi]["names"][j])
+                        if ts is None:
+                            fail("load(read=True) reads and stores every series of the file", upto, "cached", "None", clause="eager")
+                        else:
+                            check_series(upto, (fi, j), (None, ts.name, np.array(ts.t), np.array(ts.x)), "eager load" + who)
+            return
+        exp = simple_expectation(op, specs, paths, ldd)
         if isinstance(res, list):
-            exp = simple_expectation(op, specs, paths, loaded)
             if exp is not None:
                 if chk is not None:
                     chk.count("oracle:selection")
                 if len(exp) != len(res):
-                    fail("a request by exact names / full keys / indices returns exactly the requested series, in request order", n + 1,
-                         [specs[fi]["names"][j] for fi, j in exp], [it[1] or it[0] for it in res], clause="selection")
+                    fail("a request by exact names / full keys / indices returns exactly the requested series, in request order", upto,
+                         [specs[fi]["names"][j] for fi, j in exp], [it[1] or it[0] for it in res], clause="selection", how=who)
                 else:
                     for ident, it in zip(exp, res):
-                        check_series(n + 1, ident, it, "by construction")
+                        check_series(upto, ident, it, "by construction" + who)
             for it in res:
                 if it[0] is not None:
                     if it[0] in keymap:
-                        check_series(n + 1, keymap[it[0]], it, "container key")
+                        check_series(upto, keymap[it[0]], it, "container key" + who)
                     else:
-                        fail("container keys are registered keys", n + 1, "one of the registered keys", it[0], clause="key")
-        elif res != "done" and op[0] != "load":
-            exp = simple_expectation(op, specs, paths, loaded)
+                        fail("container keys are registered keys", upto, "one of the registered keys", it[0], clause="key")
+        elif res != "done":
             if exp is not None and (op[0] not in ("get", "geta") or len(exp) == 1):
-                fail("a request for registered series succeeds", n + 1, [specs[fi]["names"][j] for fi, j in exp], res, clause="error")
-        # ---- correspondence with the model
-        if model is not None:
-            mout, mcached = model[n]
-            same = True
-            f15 = False
-            if isinstance(mout, str) or isinstance(res, str):
-                same = (mout == res)
-            elif len(mout) != len(res):
-                same = False
-            else:
-                for (mk, mn, mt, mx), (k, nm, t, x) in zip(mout, res):
-                    fi, j = keymap[mk]
-                    tol = tol_of(specs[fi]["fmt"])
-                    if (k is not None and k != mk) or (nm is not None and nm != mn):
-                        same = False
-                    elif not (close(t, mt, tol) and close(x, mx, tol)):
-                        if specs[fi]["fmt"] == "asc" and close(t, mt[1:], tol) and close(x, mx[1:], tol):
-                            f15 = True          # known finding F15, reported by the value oracle; the tie is evaluated modulo it
-                        else:
+                fail("a request for registered series succeeds", upto, [specs[fi]["names"][j] for fi, j in exp], res, clause="error",
+                     how=who)
+            elif exp is None and op[0] in ("getm", "getd", "getl", "getda", "copy", "update", "app_read") and op[1][0] == "names":
+                # a request by patterns: whatever the patterns select (the database's own listing says which keys), handing those
+                # series out must not fail
+                try:
+                    sel = db.list(names=[resolve(q, specs, paths) for q in op[1][1]])
+                except Exception:
+                    sel = []
+                if sel and all(k in keymap for k in sel):
+                    fail("a request for registered series succeeds", upto, [k.split(os.path.sep)[-1] for k in sel], res,
+                         clause="error", how="by pattern" + who)
+
+    cwd = os.getcwd()
+    try:
+        os.chdir(os.path.dirname(os.path.dirname(paths[0])))      # relative file names are relative to this directory
+        mpos = 0
+        for n, op in enumerate(ops):
+            if shadow is not None and n < len(shadow):
+                res2 = call(state2, shadow[n], specs, paths)
+                oracles(state2, shadow[n], res2, loaded2, n + 1, " (second database on the same files)")
+            res = call(state, op, specs, paths)
+            db = state["db"]
+            oracles(state, op, res, loaded, n + 1, "")
+            cached = [k for k in db.register_keys if db.register.get(k) is not None]
+            # ---- correspondence with the model
+            if model is not None:
+                recs = model[mpos:mpos + nrec[n]]
+                mpos += nrec[n]
+                mout, mcached = recs[-1]
+                if op[0] == "load" and any(r[0] != "done" for r in recs[:-1]):
+                    mout = [r[0] for r in recs if r[0] != "done"][0]
+                same = True
+                f15 = False
+                if isinstance(mout, str) or isinstance(res, str):
+                    same = (mout == res)
+                elif len(mout) != len(res):
+                    same = False
+                else:
+                    for (mk, mn, mt, mx), (k, nm, t, x) in zip(mout, res):
+                        fi, j = keymap[mk]
+                        tol = tol_of(specs[fi]["fmt"])
+                        if (k is not None and k != mk) or (nm is not None and nm != mn):
                             same = False
-            if mcached != cached:
-                same = False
-            if not same:
-                d = dict(stream="rb.run", input=dict(inp or {}, first_difference_at_op=n),
-                         model=str((mout, mcached))[:600], impl=str((res if isinstance(res, str) else
-                                                                    [(k, nm, list(map(float, t)), list(map(float, x))) for k, nm, t, x in res], cached))[:600])
-                dis.append(d)
-                if chk is not None:
-                    chk.disagree(d["stream"], d["input"], d["model"], d["impl"])
-                if verbose:
-                    print("model and implementation differ at op", n, op, "\n  model:", d["model"], "\n  impl :", d["impl"])
-                break
-            if f15 and chk is not None:
-                chk.dist("asc series compared modulo F15")
+                        elif not (close(t, mt, tol) and close(x, mx, tol)):
+                            if specs[fi]["fmt"] == "asc" and close(t, mt[1:], tol) and close(x, mx[1:], tol):
+                                f15 = True          # known finding F15, reported by the value oracle; the tie is evaluated modulo it
+                            else:
+                                same = False
+                if mcached != cached:
+                    same = False
+                if not same:
+                    d = dict(stream="rb.run", input=dict(inp or {}, first_difference_at_op=n),
+                             model=str((mout, mcached))[:600], impl=str((res if isinstance(res, str) else
+                                                                        [(k, nm, flist(t), flist(x)) for k, nm, t, x in res], cached))[:600])
+                    dis.append(d)
+                    if chk is not None:
+                        chk.disagree(d["stream"], d["input"], d["model"], d["impl"])
+                    if verbose:
+                        print("model and implementation differ at op", n, op, "\n  model:", d["model"], "\n  impl :", d["impl"])
+                    model = None                    # the oracles go on without the model
+                if f15 and chk is not None:
+                    chk.dist("asc series compared modulo F15")
+    finally:
+        os.chdir(cwd)
     return dis, fails
 
 
@@ -757,7 +1461,9 @@ def run(chk):
         "h5py / nptdms / pymatreader look a data set up by its name; byte and text decoding (struct, float32, number parsing) is "
         "exercised on real files, not modelled",
         "series names do not contain the path of their file and do not start with the path separator",
-        "register indices are non-negative (Python's negative indices are not modelled)"]
+        "register indices counted from the end (Python's negative indices) are presented to the model counted from the start; "
+        "other spellings of a call (positional, tuple, bare string / integer, ndarray, relative / wildcard file names, "
+        "fromfile / application helpers / copy / update / iteration / to_dataframe) are presented as the load / get / getm they stand for"]
     chk.partial += ["byte/text decoding and the third-party readers are tied by correspondence on synthesised files only",
                     ".asc: every read lacks the first sample (known finding F15); the tie for .asc is evaluated modulo that shift"]
     rng = chk.rng
@@ -771,46 +1477,102 @@ def run(chk):
             for fmt in FORMATS:
                 fi = len(specs)
                 sp = gen_spec(rng, fi, fmt, k=(3 if v < 2 else None), variant=v)
+                if v == 1 and fmt == "ts":
+                    sp["ts_writer"] = "own"          # half of the fixed .ts files do not come from the library's own writer
+                if v >= 4:
+                    decorate(rng, sp, random_feats(rng, fmt))
                 specs.append(sp)
                 paths.append(write_file(root, sp))
                 chk.dist("file:%s k=%d" % (fmt, len(sp["names"])))
         byfmt = {fmt: [i for i, sp in enumerate(specs) if sp["fmt"] == fmt] for fmt in FORMATS}
-        # ---- histories: (file ids, ops)
+        # files in another spelling of the format (fixed feature sets; thorough: also random sets)
+        feature = []
+        combos = list(FEATURE_FILES)
+        if not chk.quick:
+            for fmt in FORMATS:
+                for _ in range(4):
+                    combos.append((fmt, rng.sample(FEATS[fmt], rng.randint(1, min(4, len(FEATS[fmt]))))))
+        for fmt, feats in combos:
+            fi = len(specs)
+            sp = decorate(rng, gen_spec(rng, fi, fmt, variant=None), feats)
+            specs.append(sp)
+            paths.append(write_file(root, sp))
+            feature.append(fi)
+            byfmt[fmt].append(fi)
+            for f in sp.get("feats", []):
+                chk.dist("feature:%s:%s" % (fmt, f))
+        # a file with the same base name as the first file of the format, in the other directory, with other contents
+        twin = {}
+        for fmt in FORMATS:
+            fi, first = len(specs), specs[byfmt[fmt][0]]
+            sp = gen_spec(rng, fi, fmt, k=len(first["names"]) if fmt in ("bin", "asc") else None, variant=None)
+            sp.update(base=first["base"], dir="d1" if first["dir"] == "d0" else "d0")
+            specs.append(sp)
+            paths.append(write_file(root, sp))
+            twin[fmt] = fi
+        # ---- histories: (kind, specs, paths, ops, meta)
         hist = []
         chains = []
         for ci, c in enumerate(core.load_corpus("C01")):
+            meta = dict(shadow=c["shadow"]) if c.get("shadow") else None
             if c.get("prior"):
                 # a chain of sessions on files re-written at the same paths
                 croot, prior = os.path.join(root, "corpus_chain%d" % ci), []
                 for ses in list(c["prior"]) + [dict(specs=c["specs"], ops=c["ops"])]:
-                    pths = [os.path.join(croot, sp.get("dir", ""), sp["base"] + "." + sp["fmt"]) for sp in ses["specs"]]
+                    pths = [file_path(croot, sp) for sp in ses["specs"]]
                     chains.append(("corpus", ses["specs"], pths, ses["ops"], dict(root=croot, prior=list(prior))))
                     prior.append(dict(specs=ses["specs"], ops=ses["ops"]))
             else:
-                hist.append(("corpus", c["specs"], None, c["ops"]))
+                hist.append(("corpus", c["specs"], None, c["ops"], meta))
         nh = 40 if chk.quick else 500
         for fmt in FORMATS:
-            for _ in range(nh):
+            for q in range(nh):
                 ids = [rng.choice(byfmt[fmt])]
                 for _ in range(rng.choice([0, 0, 1, 2])):
                     o = rng.randrange(len(specs))
                     if o not in ids:
                         ids.append(o)
-                hist.append(("random", [specs[i] for i in ids], [paths[i] for i in ids], gen_history(rng, [specs[i] for i in ids])))
+                sps = [specs[i] for i in ids]
+                meta = None
+                if q % 8 == 7:
+                    # a second database of the same process works on the same files in between
+                    meta = dict(shadow=gen_history(rng, sps))
+                hist.append(("random", sps, [paths[i] for i in ids], gen_history(rng, sps, plain=(q % 4 == 0)), meta))
         for fmt in FORMATS:
-            for i in (byfmt[fmt][:1] if chk.quick else byfmt[fmt]):
-                for ops in subset_histories(specs[i], chk.quick, rng):
-                    hist.append(("subsets", [specs[i]], [paths[i]], ops))
+            for i in (byfmt[fmt][:1] if chk.quick else byfmt[fmt][:nvar]):
+                for q, ops in enumerate(subset_histories(specs[i], chk.quick, rng)):
+                    hist.append(("subsets", [specs[i]], [paths[i]], restyle(rng, ops, 0.3) if q % 2 else ops, None))
         # every name of a file on its own, then together in reverse order (files with keyword-like / case-variant names first)
         for fmt in FORMATS:
-            for i in (byfmt[fmt][2:4] if chk.quick else byfmt[fmt]):
-                hist.append(("sweep", [specs[i]], [paths[i]], sweep_history(specs[i], rng)))
+            for i in (byfmt[fmt][2:4] if chk.quick else byfmt[fmt][:nvar]):
+                hist.append(("sweep", [specs[i]], [paths[i]], sweep_history(specs[i], rng), None))
+        # the files in another spelling: corner subsets (one cache state each), the sweep, every entry point
+        for i in feature:
+            subs = subset_histories(specs[i], True, rng)
+            for q, ops in enumerate(subs[:21]):
+                if q % 3 == (q // 3) % 3:
+                    hist.append(("feature-subsets", [specs[i]], [paths[i]], restyle(rng, ops, 0.3), None))
+            hist.append(("feature-sweep", [specs[i]], [paths[i]], restyle(rng, sweep_history(specs[i], rng), 0.3), None))
+            hist.append(("feature-entry", [specs[i]], [paths[i]], entry_history(specs[i], rng), None))
+        for fmt in FORMATS:
+            for i in byfmt[fmt][:2]:
+                hist.append(("entry", [specs[i]], [paths[i]], entry_history(specs[i], rng), None))
+        # several files in one database: same format in two layouts, same base name in two directories, another format
+        for fmt in FORMATS:
+            feats_of = [i for i in feature if specs[i]["fmt"] == fmt]
+            groups = [[byfmt[fmt][0], twin[fmt]], [feats_of[0], byfmt[fmt][1]] + feats_of[1:2],
+                      [twin[fmt], byfmt[fmt][0], rng.choice(feature)]]
+            for ids in groups:
+                ids = list(dict.fromkeys(ids))
+                sps = [specs[i] for i in ids]
+                hist.append(("pair", sps, [paths[i] for i in ids], pair_history(sps, rng),
+                             dict(shadow=pair_history(sps, rng)) if rng.random() < 0.5 else None))
         # corpus entries bring their own file contents: write them
-        for n, (kind, sps, pths, ops) in enumerate(hist):
+        for n, (kind, sps, pths, ops, meta) in enumerate(hist):
             if pths is None:
                 croot = os.path.join(root, "corpus%d" % n)
-                hist[n] = (kind, sps, [write_file(croot, sp) for sp in sps], ops)
-        hist = [h + (None,) for h in hist] + chains
+                hist[n] = (kind, sps, [write_file(croot, sp) for sp in sps], ops, meta)
+        hist = hist + chains
         # files that are re-written at the same path between sessions (a new database per session, same process): the files of a
         # session are written immediately before it is executed; `prior` = the earlier sessions, which are part of the input
         nsess = 2 if chk.quick else 10
@@ -823,29 +1585,46 @@ def run(chk):
                     first.append(gen_spec(rng, fi_next + 1, rng.choice(FORMATS), variant=None))
                 prior = []
                 for sps, ops in session_histories(rng, first, fi_next + 2):
-                    pths = [os.path.join(sroot, sp["dir"], sp["base"] + "." + sp["fmt"]) for sp in sps]
+                    pths = [file_path(sroot, sp) for sp in sps]
                     hist.append(("session%d" % len(prior), sps, pths, ops, dict(root=sroot, prior=list(prior))))
                     prior.append(dict(specs=sps, ops=ops))
                 fi_next += 6
-        lines = [encode(sps, pths, ops) for (_, sps, pths, ops, _) in hist]
-        outs = drv.run(lines)
-        for (kind, sps, pths, ops, sess), reply in zip(hist, outs):
+        enc = [encode(sps, pths, ops) for (_, sps, pths, ops, _) in hist]
+        outs = drv.run([e[0] for e in enc])
+        for (kind, sps, pths, ops, meta), (_, nrec), reply in zip(hist, enc, outs):
             inp = dict(specs=sps, ops=ops)
-            if sess is not None:
-                inp["prior"] = sess["prior"]
-                assert [write_file(sess["root"], sp) for sp in sps] == pths
+            meta = meta or {}
+            if "prior" in meta:
+                inp["prior"] = meta["prior"]
+                assert [write_file(meta["root"], sp) for sp in sps] == pths
+            if meta.get("shadow"):
+                inp["shadow"] = meta["shadow"]
             chk.count("rb.run:" + kind)
+            model = None
             if not reply.startswith("ok "):
                 chk.disagree("rb.run", inp, reply, "(model did not accept the request)")
+            else:
+                model = parse_reply(reply)
+            try:
+                execute(sps, pths, ops, model=model, chk=chk, inp=inp, nrec=nrec, shadow=meta.get("shadow"))
+            except Exception as e:                    # never an infrastructure error: the history is a failing input
+                chk.fail("every retrieval history on readable files can be evaluated (no internal error)", inp, "no exception",
+                         "%s: %s" % (type(e).__name__, str(e)[:300]), clause="crash")
+            if model is None:
                 continue
-            model = parse_reply(reply)
-            execute(sps, pths, ops, model=model, chk=chk, inp=inp)
             for sp in sps:
                 chk.dist("history with " + STYLE[sp["fmt"]])
-            for op, (mout, _) in zip(ops, model):
+            mpos = 0
+            for op, nr in zip(ops, nrec):
+                mout = model[mpos + nr - 1][0]
+                mpos += nr
                 chk.dist("op:" + op[0])
+                st = op_style(op)
+                for key in sorted(st):
+                    if st[key]:
+                        chk.dist("spelling:%s=%s" % (key, st[key]))
                 chk.dist("out:" + (mout if isinstance(mout, str) else "series"))
-                if isinstance(mout, list) and (nontrivial(op, sps) or (sess is not None and sess["prior"])):
+                if isinstance(mout, list) and (nontrivial(op, sps) or meta.get("prior")):
                     chk.nontriv((tuple(sp["fi"] for sp in sps), repr(ops)))
             if kind == "random" and 3 <= len(ops) <= 4 and len(chk.samples) < 4:
                 chk.sample(dict(files=[(sp["fmt"], sp["names"]) for sp in sps], ops=ops,
@@ -865,13 +1644,19 @@ def replay(rp):
             _, pf = execute(pr["specs"], ppaths, pr["ops"], inp=dict(specs=pr["specs"], ops=pr["ops"]))
             print("(earlier session %d on the same paths: %d failing clause(s))" % (n, len(pf)))
         paths = [write_file(root, sp) for sp in specs]
-        model = None
+        model, nrec = None, None
         try:
-            reply = core.Driver().run([encode(specs, paths, ops)])[0]
+            line, nrec = encode(specs, paths, ops)
+            reply = core.Driver().run([line])[0]
             model = parse_reply(reply) if reply.startswith("ok ") else None
         except Exception as e:                     # the oracles do not need the model
             print("(model not available: %s)" % e)
-        dis, fails = execute(specs, paths, ops, model=model, inp=dict(specs=specs, ops=ops), verbose=True)
+        try:
+            dis, fails = execute(specs, paths, ops, model=model, inp=dict(specs=specs, ops=ops), verbose=True, nrec=nrec,
+                                 shadow=inp.get("shadow"))
+        except Exception as e:
+            print("FAILS: the history cannot be evaluated: %s: %s" % (type(e).__name__, e))
+            return 1
         known = [f for f in fails if is_f15(f)]
         print("replay: %d failing clause(s) (%d of them the known .asc first-row finding), %d model disagreement(s)" % (
             len(fails), len(known), len(dis)))
